@@ -435,6 +435,31 @@ def install_names(model, wb):
         model.defined_names[n] = model.cells[a]
 
 
+def rerouted(model, wb):
+    """Round-8 seed C04-11 (set_cell_value writing to the object bound in defined_names instead of cells[address]: the
+    same object in a compiled model, a separate deep copy after extract / a separate object after restore).  A model
+    that came out of ModelCompiler.extract (focus = everything) or out of persist + restore is a model like any other:
+    the same histories must behave as on the compiled one.  `wb['route']` selects how the model under test is obtained."""
+    route = wb.get('route')
+    if route == 'extracted':
+        from xlcalculator import ModelCompiler
+        return ModelCompiler.extract(model, focus=list(model.cells) + list(wb.get('names', {})))
+    if route == 'restored':
+        import os
+        import tempfile
+        from xlcalculator.model import Model
+        fd, path = tempfile.mkstemp(suffix='.json', prefix='xlverif_c04_')
+        os.close(fd)
+        try:
+            model.persist_to_json_file(path)
+            m2 = Model()
+            m2.construct_from_json_file(path, build_code=True)
+        finally:
+            os.unlink(path)
+        return m2
+    return model
+
+
 def vkey(v):
     return (type(v).__name__, v)
 
@@ -480,6 +505,7 @@ def run_history(wb, oracle, hist):
     from xlcalculator import Evaluator
     model = evalwire.build_real(wb)
     install_names(model, wb)
+    model = rerouted(model, wb)
     ev = Evaluator(model)
     names = wb.get('names', {})
     inputs = {a: c for a, c in wb['cells'].items() if not (isinstance(c, tuple) and c and c[0] == 'f')}
@@ -620,6 +646,8 @@ def wb_from_json(j):
     for k in ('twins', 'mirrored'):
         if j.get(k):
             out[k] = True
+    if j.get('route'):
+        out['route'] = j['route']
     return out
 
 
@@ -775,6 +803,10 @@ def run(ctx):
                     else (rng.choice([6, 7, 8, 9, 11]), rng.choice(SPECIAL_VALUES)))
             if ins:
                 small.append(('generated', wb, vals))
+        for label, wb, vals in list(small):
+            if wb.get('names'):
+                for route in ('extracted', 'restored'):
+                    small.append((f'{label} ({route} model)', {**wb, 'route': route}, vals))
         batches = []
         exhaustive_info = []
         for label, wb, vals in small:
@@ -797,6 +829,8 @@ def run(ctx):
         batches = []
         for _ in range(nmodels):
             wb = gen_model(rng, rng.randint(3, 12))
+            if wb.get('names') and rng.random() < 0.5:
+                wb['route'] = rng.choice(['extracted', 'restored'])
             hists = [random_history(rng, wb, rng.choice([8, 15, 30, 60])) for _ in range(per)]
             batches.append((wb, hists))
         # a chain as deep as the validated fuel allows, long history
